@@ -4,7 +4,7 @@ import PysphVerif.Model.Controller
 Line protocol for C18:
   `run cfg=<wcdr bits, e.g. 1011> progs=<ops,ops/ops,...|_> sched=<tid,tid,...|_>`
 ops: `g` get, `s<int>` blocking set, `qs<int>` queued set, `qd` queued probe,
-`r<k>` get_result of the k-th task, `p` pause_on_next, `w` wait, `c` cont.
+`r<k>` get_result of the k-th task, `m<j>` of the thread's own j-th task, `p` pause_on_next, `w` wait, `c` cont.
 cfg bits: waitPred, contNested, dispatchNotifies, runBeforeWait.
 Answer: `<enabled>|<tid>:<ev+ev>;...;<enabled>|end <final state>`; a scheduled
 thread that is not enabled gives `<enabled>|stuck:<tid>` as the last step.
@@ -21,6 +21,7 @@ def parseOp (s : String) : Option Op :=
   else if s.startsWith "qs" then (parseInt? (s.drop 2).toString).map (fun v => Op.queue (Cmd.set v))
   else if s.startsWith "s" then (parseInt? (s.drop 1).toString).map Op.setNow
   else if s.startsWith "r" then (parseNat? (s.drop 1).toString).map Op.getResult
+  else if s.startsWith "m" then (parseNat? (s.drop 1).toString).map Op.getMine
   else none
 
 def parseProgs (s : String) : Option (List (List Op)) :=
@@ -44,7 +45,7 @@ def showTids (l : List Tid) : String :=
 
 def showOp : Op → String
   | Op.get => "g" | Op.setNow v => s!"s{v}" | Op.queue (Cmd.set v) => s!"qs{v}"
-  | Op.queue Cmd.probe => "qd" | Op.getResult k => s!"r{k}"
+  | Op.queue Cmd.probe => "qd" | Op.getResult k => s!"r{k}" | Op.getMine j => s!"m{j}"
   | Op.pause => "p" | Op.wait => "w" | Op.cont => "c"
 
 def showRes : Res → String
